@@ -21,6 +21,7 @@ import LzmaVerif.Generated.TwinParams
 import Driver.MfHc4
 import Driver.MfBt4
 import Driver.EncFast
+import Driver.Writers
 /-! Request handlers: each maps a parsed request to the canonical answer line. -/
 namespace Driver
 open LzmaVerif
@@ -427,6 +428,7 @@ def handle (cmd : String) (a : Args) : String :=
   match cmd with
   | "twin.extend" | "twin.norm" | "twin.reject" | "twin.direct" => handleTwin cmd a
   | "encfast.parse" | "lzma.parse" => handleEncFast cmd a
+  | "lzipw.fast" | "lzmaw.fast" => handleWriters cmd a
   | "mf.trace" => if a.get? "kind" == some "bt4" then handleMfBt4 a else handleMfTraceHc4 a
   | "lzdec.run" => handleLzDec a
   | "encwin.trace" => handleEncWin a
